@@ -139,6 +139,21 @@ func runC13(c *CaseCtx) (res CaseResult) {
 		}
 	}
 	s.Target.InForm = pickStructForm(s.Target.InForm, s.Target.In, r)
+	if r.Intn(5) == 0 {
+		// same model over unnamed / mutually assignable / func / chan types
+		var hopIdx []int
+		for i, p := range s.Target.In {
+			if p.Type >= 4 && p.Type < nConcrete {
+				hopIdx = append(hopIdx, i)
+			}
+		}
+		s = exoticize(s, r)
+		hop = hop[:0]
+		for _, i := range hopIdx {
+			hop = append(hop, s.Target.In[i])
+		}
+		res.obs("cases_over_exotic_types", 1)
+	}
 	dedupeTypes(&s)
 	fixDelivery(&s, r)
 	if r.Intn(4) == 0 {
@@ -165,7 +180,15 @@ func runC13(c *CaseCtx) (res CaseResult) {
 	}
 	reps := tierReps(c.Tier, 2, 4)
 	inspect := c13Inspector(&s, &cf, hop, &res)
-	outs, _ := runScenario(c, s, r, reps, &res, func(in *Inst, o *Outcome) {
+	zero := -1
+	if len(s.Inputs) > 0 && r.Intn(4) == 0 {
+		// one supplied value is the zero value of its type (for the exotic
+		// types a typed nil slice / pointer / map / func / channel): it is
+		// a supplied value all the same
+		zero = r.Intn(len(s.Inputs))
+		res.obs("cases_with_a_zero_valued_input", 1)
+	}
+	outs, _ := runScenarioX(c, s, r, reps, &res, func(in *Inst) { in.ZeroInput1 = zero + 1 }, func(in *Inst, o *Outcome) {
 		inspect(in, o)
 		if r.Intn(4) != 0 {
 			return
